@@ -667,7 +667,7 @@ func checkAs(c *Ctx, named map[string]string, name, what string, bad func(o supO
 	}
 }
 
-func init() { c05Extra = func(c *Ctx) { c05History(c); c05HistoryPassive(c); c05T7Dwell(c) } }
+func init() { c05Extra = func(c *Ctx) { c05History(c); c05HistoryPassive(c); c05T7Dwell(c); c05LateWrite(c) } }
 
 var c05Extra func(*Ctx)
 
